@@ -556,7 +556,13 @@ func (p *Proxy) handleConnectRequest(ctx *Context, req *http.Request, session *S
 	}
 
 	copySync := func(w io.Writer, r io.Reader, donec chan<- bool) {
-		if _, err := io.Copy(w, r); err != nil && err != io.EOF {
+		// Handed w itself, io.Copy ends up in bufio.Writer.ReadFrom, which passes
+		// bytes on as they arrive only if the connection behind w implements
+		// io.ReaderFrom (a *net.TCPConn does; a *tls.Conn, or whatever else a
+		// listener or SetDial hands out, need not) and otherwise holds them back
+		// until the buffer is full or the stream ends.
+		fw := &flushWriter{w: w}
+		if _, err := io.Copy(fw, r); err != nil && err != io.EOF {
 			log.Errorf("martian: failed to copy CONNECT tunnel: %v", err)
 		}
 
@@ -570,9 +576,17 @@ func (p *Proxy) handleConnectRequest(ctx *Context, req *http.Request, session *S
 		if f, ok := w.(interface{ Flush() error }); ok {
 			f.Flush()
 		}
+		if pc, ok := dst.(*peekedConn); ok {
+			// Decide by the connection itself: peekedConn.CloseWrite closes a
+			// connection that cannot be shut down one way.
+			dst = pc.Conn
+		}
 		if cw, ok := dst.(interface{ CloseWrite() error }); ok {
 			cw.CloseWrite()
-		} else {
+		} else if fw.err == nil {
+			// Closing is the only way to pass on the end of the stream. After a
+			// failed write there is none to pass on, and closing dst would throw
+			// away what its peer has sent and the opposite copy has not read yet.
 			dst.Close()
 		}
 
@@ -758,6 +772,24 @@ func (p *Proxy) handle(ctx *Context, conn net.Conn, brw *bufio.ReadWriter) error
 		closing = errClose
 	}
 	return closing
+}
+
+// A flushWriter passes every write on to the connection behind w at once and
+// remembers the error of the write that failed.
+type flushWriter struct {
+	w   io.Writer
+	err error
+}
+
+func (f *flushWriter) Write(p []byte) (int, error) {
+	n, err := f.w.Write(p)
+	if fl, ok := f.w.(interface{ Flush() error }); ok && err == nil {
+		err = fl.Flush()
+	}
+	if err != nil {
+		f.err = err
+	}
+	return n, err
 }
 
 // A peekedConn subverts the net.Conn.Read implementation, primarily so that
